@@ -444,12 +444,18 @@ def generate_bufr_message(decoder, s, info_only=False, continue_on_error=False, 
                         bufr_message = decoder.process(
                             s[idx_start:], start_signature=None, info_only=False, *args, **kwargs
                         )
-                    _, b_entries, d_entries = BufrTableDefinitionProcessor().process(bufr_message)
-                    TableGroupCacheManager.invalidate()
-                    TableGroupCacheManager.add_extra_entries(b_entries, d_entries)
-                    # Templates compiled so far have the earlier definitions baked in
-                    if getattr(decoder, 'compiled_template_manager', None):
-                        decoder.compiled_template_manager.cache.clear()
+                    try:
+                        _, b_entries, d_entries = BufrTableDefinitionProcessor().process(bufr_message)
+                    except PyBufrKitError as e:
+                        # Data category 11 does not oblige a message to use the (NCEP) layout
+                        # of a table definition message: an ordinary message, nothing to register
+                        log.warning('No table definitions taken from the message: {}'.format(e))
+                    else:
+                        TableGroupCacheManager.invalidate()
+                        TableGroupCacheManager.add_extra_entries(b_entries, d_entries)
+                        # Templates compiled so far have the earlier definitions baked in
+                        if getattr(decoder, 'compiled_template_manager', None):
+                            decoder.compiled_template_manager.cache.clear()
             idx_start += len(bufr_message.serialized_bytes)
 
             if matched:
